@@ -49,9 +49,13 @@ def Entry.key (e : Entry) : String := e.1
 def Entry.slot (e : Entry) : String := e.2.1
 def Entry.opt (e : Entry) : Bool := e.2.2
 
+/-- `writes`: the lines of `toDict`; `reads`: the lines of `fromDict`; `resets`: slots which `fromDict` sets to
+`None` whatever the data (KWNEuler.fromDict replaces each `PopulationBalanceModel` by a new object, so the
+attributes it does not assign afterwards — the recorded size-distribution history — are back to `None`) -/
 structure Spec where
   writes : List Entry
   reads : List Entry
+  resets : List String := []
 
 abbrev State (α : Type) := String → Val α
 
@@ -99,9 +103,12 @@ def fromDict {α : Type} (R : List Entry) (d : Dict α) (s0 : State α) : Except
 
 def save {α : Type} (sp : Spec) (s : State α) : Dict α := npzSave (toDict sp.writes s)
 
+def applyResets {α : Type} (rs : List String) (s0 : State α) : State α :=
+  fun x => if x ∈ rs then .none else s0 x
+
 def load {α : Type} (sp : Spec) (file : Dict α) (s0 : State α) : Except Err (State α) := do
   let d ← npzLoad file
-  fromDict sp.reads d s0
+  fromDict sp.reads d (applyResets sp.resets s0)
 
 /-- `data.get(k, None)` -/
 def lookupOrNone {α : Type} (d : Dict α) (k : String) : Val α :=
@@ -120,6 +127,10 @@ executed once per phase with the phase name appended to the key (`'PBM_PSD_' + p
 phase `ph` is written `slot@ph` -/
 def expand (G P : List Entry) (phases : List String) : List Entry :=
   G ++ phases.flatMap (fun ph => P.map (fun e => (e.key ++ ph, e.slot ++ "@" ++ ph, e.opt)))
+
+/-- slot names of a model with phases: global names and per-phase names (`name@phase`) -/
+def expandSlots (G P : List String) (phases : List String) : List String :=
+  G ++ phases.flatMap (fun ph => P.map (fun n => n ++ "@" ++ ph))
 
 /-- does the `toDict` table `W` provide what the `fromDict` line `e` needs?  same key, same slot, and
 if the write can be skipped the read must tolerate the missing key -/
@@ -158,10 +169,10 @@ def flatten {α : Type} : (k : Nat) → Nest α k → List α
   | 0, x => [x]
   | k+1, xs => List.flatMap (flatten k) xs
 
-/-- shape of `np.array(nested)` (read along the first elements) -/
+/-- shape of `np.array(nested)` (read along the first elements; an empty list gives shape `(0,)`) -/
 def shapeOf {α : Type} : (k : Nat) → Nest α k → List Nat
   | 0, _ => []
-  | k+1, xs => List.length xs :: (match xs with | [] => List.replicate k 0 | x :: _ => shapeOf k x)
+  | k+1, xs => List.length xs :: (match xs with | [] => [] | x :: _ => shapeOf k x)
 
 /-- an entry of a surrogate data dictionary in memory -/
 inductive Field (α : Type) where
